@@ -16,7 +16,7 @@ import (
 // pointer escaping, non-ASCII, spaces and HTML characters; numbers are
 // literals chosen to expose any conversion; strings need JSON escaping.
 var (
-	KeyPool   = []string{"a", "b", "c", "d", "0", "1", "-1", "x/y", "m~n", "~1", "é", "k k", "-", "<&>", "a/b~c", "e f", "%d", "b\\s"}
+	KeyPool   = []string{"a", "b", "c", "d", "0", "1", "-1", "x/y", "m~n", "~1", "é", "k k", "-", "<&>", "a/b~c", "e f", "%d", "b\\s", "ab"}
 	PlainKeys = []string{"a", "b", "c", "d", "e", "f", "k0", "k1"}
 	NumPool   = []string{"0", "1", "-1", "2", "10", "1.0", "1.5", "-0", "1e2", "1E400", "12345678901234567890123", "0.1", "-2.50", "1e-7", "100000000000000000000", "0.30000000000000004", "2E+2", "9007199254740992", "9007199254740993", "1700000000", "1700000001"}
 	StrPool   = []string{"", "a", "b", "x y", "é", "<&>", "q\"uote", "back\\slash", "line\nfeed", "😀", " ", "tab\there", "</script>", "a&b", "u v w", "\u0001ctl", "/", "~", "25% off %s", "%!v(x)", "cr\rlf"}
@@ -271,6 +271,10 @@ type OpGen struct {
 	Legacy bool
 	// MissKinds restricts the near-miss kinds (see Miss); nil = all ten.
 	MissKinds []int
+	// Orig: the document as it was before the first operation. A mismatching
+	// test value is often the value the location had THEN (an implementation
+	// that looks at stale text of an edited container lets such a test pass).
+	Orig *ref.V
 }
 
 var AllKinds = []string{"add", "add", "remove", "replace", "move", "copy", "test", "test"}
@@ -280,6 +284,31 @@ func NewOpGen(neg bool) *OpGen {
 }
 
 // Calm lowers the failure rates so that sequences run deep.
+// Swarm restricts the operation kinds of this sequence to a random subset of
+// two to four kinds one time in three ("swarm testing": with all six kinds in
+// every sequence, long runs of e.g. move/copy/remove on the same array - where
+// their interactions live - are rare).
+func (g *OpGen) Swarm(t *rapid.T) *OpGen {
+	if !OneIn(t, 3, "swarm") {
+		return g
+	}
+	all := []string{"add", "remove", "replace", "move", "copy", "test"}
+	n := Uniform(t, 2, 4, "swarmn")
+	var ks []string
+	for len(ks) < n {
+		k := all[Uniform(t, 0, len(all)-1, "swarmk")]
+		dup := false
+		for _, x := range ks {
+			dup = dup || x == k
+		}
+		if !dup {
+			ks = append(ks, k)
+		}
+	}
+	g.Kinds = ks
+	return g
+}
+
 func (g *OpGen) Calm() *OpGen {
 	g.NearMiss, g.TestMismatch = 3, 6
 	return g
@@ -413,6 +442,11 @@ func (g *OpGen) TestValue(t *rapid.T, cur *ref.V, path, label string) *ref.V {
 	if r.Cause == ref.COK && !Percent(t, g.TestMismatch, label+"mismatch") {
 		return v.Clone()
 	}
+	if g.Orig != nil && rapid.Bool().Draw(t, label+"stale") {
+		if ov, or := ref.Lookup(g.Orig, path, ref.Opts{Neg: g.Neg}); or.Cause == ref.COK && ov.IsContainer() {
+			return ov.Clone() // what was there before the earlier operations
+		}
+	}
 	if r.Cause == ref.COK && v.IsContainer() && rapid.Bool().Draw(t, label+"near") {
 		return g.Cfg.Mutate(t, v, 1)
 	}
@@ -488,6 +522,9 @@ func (g *OpGen) Next(t *rapid.T, cur *ref.V, i int) ref.Op {
 func (g *OpGen) Seq(t *rapid.T, doc *ref.V, o ref.Opts, minOps, maxOps, tail int) []ref.Op {
 	n := Uniform(t, minOps, maxOps, "nops")
 	st := &ref.State{Root: doc.Clone()}
+	if g.Orig == nil {
+		g.Orig = doc.Clone()
+	}
 	var ops []ref.Op
 	failed := false
 	for i := 0; i < n; i++ {
